@@ -372,14 +372,16 @@ def run(ctx):
                 ctx.violation(key, "world %s, killed %s, then --resume%s: %s" % (wname, labels, " --threads %d" % job[2] if job[2] else "", detail),
                               {"world": wname, "crashes": job[1], "resume_threads": job[2], "labels": labels})
         # double crashes (thorough, world w1): kill, resume, kill the resumed run at each of ITS mutation points, resume again
-        if not quick and wname == "w1":
+        if wname == "w1":
             jobs2 = []
             step = 7
-            for i in range(2, n + 1, step):
-                # mutation points of the resumed run are discovered by running it once with a huge target
-                for j in range(1, 60, 2):
-                    jobs2.append((wname, [(i, "after"), (j, "after")], None, ctx.scratch, wid, t0, chroms))
-                    wid += 1
+            for i in (range(2, n + 1, step) if not quick else (n // 2,)):
+                # mutation points of the resumed run are discovered by running it once with a huge target; its first points (the
+                # parameters are saved again, configuration files are touched) with both variants, later ones every second
+                for j in (list(range(1, 8)) + list(range(9, 60, 2)) if not quick else range(1, 8)):
+                    for variant in (("after", "before") if j < 8 else ("after",)):
+                        jobs2.append((wname, [(i, "after"), (j, variant)], None, ctx.scratch, wid, t0, chroms))
+                        wid += 1
             for job, (labels, status, detail, npts) in zip(jobs2, core.pmap(crash_case, jobs2)):
                 total += 1
                 if status in ("unreached", "out-of-scope"):
